@@ -655,6 +655,11 @@ func (sel *Selection) Set(v val.Value) error {
 	if v == nil {
 		// no value is how a leaf is cleared, nodes are never handed a nil value to store
 		r.Clear = true
+	} else if sel.parent != nil {
+		// a leaf of a case: setting it selects that case, data of another case of the choice goes
+		if err := (editor{}).clearOnDifferentChoiceCase(sel.parent, m); err != nil {
+			return err
+		}
 	}
 	return sel.set(&r, &ValueHandle{Val: v})
 }
